@@ -360,6 +360,10 @@ func (i *PostingsIterator) loadChunk(chunk int) error {
 	if i.includeLocs {
 		err := i.locReader.loadChunk(chunk)
 		if err != nil {
+			// the freq/norm chunk is loaded but the location chunk is not:
+			// forget it, so that the next use of the iterator loads both
+			// again instead of reading from a location reader without data
+			i.freqNormReader.curChunkBytes = nil
 			return err
 		}
 	}
